@@ -273,7 +273,7 @@ class Interp:
     def setattr(s, o, name, v):
         if not isinstance(o, Obj):
             raise Undecided(f"attribute store on {type(o).__name__}")
-        s.writes.append((o.oid, o.cls, name, s.site))
+        s.writes.append((o.oid, o.cls, name, s.site, o.f.get(name, "<unset>"), v))
         o.f[name] = v
 
     # ================================================================== calls
